@@ -7,6 +7,22 @@ props = [json.loads(l) for l in open(os.path.join(HERE, "properties.jsonl"))]
 
 # id -> (level, technique, level text, level note, design ref)
 CLAIMS = {
+    "C03": ("model_checking",
+            "byte-serial composition of TLC's complete 8-bit tables (rule checked by TLC) + exhaustive Go sweep of CPU.Step over operand pairs",
+            "The real CPU.Step is swept over all 2^32 operand pairs x F in {00,01,FE,FF} for every non-doubling ADD/ADC/SBC "
+            "encoding (thorough; quick: 4096^2 boundary pairs), all 65,536 values x all 256 F for INC/DEC ss and the doubling "
+            "forms, against an oracle composed from TLC's complete ADC/SBC tables by the byte-serial rule that TLC checked "
+            "against the 17-bit definitions; catalogue Steps are also validated by the trace specification.",
+            "TLC cannot tabulate 2^33 points: the composition rule is a TLC-checked law (boundary set squared) re-validated on "
+            "60,000 TLC-evaluated direct points. Trusts TLC and Z80Alu.tla.",
+            "DESIGN.md section 3 C03"),
+    "C16": ("model_checking",
+            "TLC-tabulated accessor operators (spec/Flags.tla, complete domains) + exhaustive Go sweep of the real accessors",
+            "GetFlag/SetFlag/ResetFlag for all 256 masks x 256 F x 256 A (whole GPR compared), SetU16/U16/Hi/Lo for all 65,536 "
+            "values and the eight constants are compared with tables TLC generated from the set-based definitions in "
+            "Flags.tla (themselves checked against the bitwise definitions). Complete for the finite space.",
+            "Trusts TLC and the 20-line Flags.tla.",
+            "DESIGN.md section 3 C16"),
     "C01": ("model_checking",
             "TLA+ instruction-set specification (Z80Core/Z80Int) + TLC trace validation of recorded real Steps",
             "Every recorded CPU.Step is judged by TLC against StepSet of the TLA+ specification on the whole architectural "
